@@ -29,10 +29,12 @@ type AtClause struct {
 
 type LoopSpec struct {
 	Invariants  []Clause
+	Exits       []Clause // "exit [label:] e": proved on every edge that leaves the loop (condition false, break, return inside the loop)
 	Steps       []Clause // "step [label:] e": proved at every back edge; prev(x) is x at the loop head of the same iteration
 	Decreases   *Clause
 	Modifies    []Clause
 	HasModifies bool
+	ModifiesAll bool
 }
 
 type Contract struct {
@@ -126,7 +128,7 @@ func NewSpecs() *Specs {
 var propsRe = regexp.MustCompile(`\[(C[0-9]+(?:\s*,\s*C[0-9]+)*)\]`)
 
 var clauseKeywords = map[string]bool{
-	"requires": true, "ensures": true, "check": true, "at": true, "modifies": true, "loop": true, "invariant": true, "step": true,
+	"requires": true, "ensures": true, "check": true, "at": true, "modifies": true, "loop": true, "invariant": true, "step": true, "exit": true,
 	"decreases": true, "replay:": true, "flag": true, "end": true, "ghostset": true, "ghostinit": true,
 }
 var topKeywords = map[string]bool{
@@ -312,7 +314,7 @@ func (sp *Specs) ParseFile(path, pkgPath string) error {
 			}
 			cur.AtCalls = append(cur.AtCalls, AtClause{Callee: callee, Clause: c})
 			curLoop = nil
-		case "requires", "ensures", "invariant", "decreases", "check", "step":
+		case "requires", "ensures", "invariant", "decreases", "check", "step", "exit":
 			if cur == nil {
 				return fmt.Errorf("%s:%d: %s outside a func block", path, l.line, l.kw)
 			}
@@ -340,6 +342,11 @@ func (sp *Specs) ParseFile(path, pkgPath string) error {
 					return fmt.Errorf("%s:%d: step outside a loop block", path, l.line)
 				}
 				curLoop.Steps = append(curLoop.Steps, c)
+			case "exit":
+				if curLoop == nil {
+					return fmt.Errorf("%s:%d: exit outside a loop block", path, l.line)
+				}
+				curLoop.Exits = append(curLoop.Exits, c)
 			case "decreases":
 				if curLoop == nil {
 					return fmt.Errorf("%s:%d: decreases outside a loop block", path, l.line)
@@ -356,8 +363,13 @@ func (sp *Specs) ParseFile(path, pkgPath string) error {
 				return err
 			}
 			if curLoop != nil {
-				curLoop.Modifies = append(curLoop.Modifies, cl...)
-				curLoop.HasModifies = true
+				if all {
+					// "modifies everything" on a loop: no frame, everything is havocked at the head
+					curLoop.ModifiesAll = true
+				} else {
+					curLoop.Modifies = append(curLoop.Modifies, cl...)
+					curLoop.HasModifies = true
+				}
 			} else {
 				cur.Modifies = append(cur.Modifies, cl...)
 				cur.HasModifies = true
